@@ -469,7 +469,7 @@ pub fn execute(world: &World, plan: &Plan, judgement: &Judgement, scratch: &Path
                 let result = validators::run(Arc::new(context), sync_v, async_v);
                 // run() may return before every unit has run (early return on the first Err);
                 // let the rest finish so the logs are cut at a deterministic point.
-                incomplete = !gate.wait_all(n_units, std::time::Duration::from_millis(400));
+                incomplete = !gate.wait_all(n_units, std::time::Duration::from_millis(1500));
                 match result {
                     Err(e) => Obs::Failed(redact_pointers(&format!("{e:#}"))),
                     Ok(map) => {
